@@ -819,6 +819,14 @@ pthread_t __wrap_pthread_self(void) {
     if (t_tid >= 0 && t_in_sut > 0 && t_in_rt == 0) return (pthread_t)(((uintptr_t)(t_tid == MAIN_TID ? MAXT : t_tid) + 1) << 12);
     return __real_pthread_self();
 }
+// the few pthread calls that take a thread id back: a simulated id is translated to the real one
+static pthread_t real_thread_of(pthread_t t) {
+    uintptr_t v = (uintptr_t)t;
+    if ((v & 0xfff) == 0 && v >= (1u << 12) && (v >> 12) <= (uintptr_t)MAXT + 1) { int k = (int)(v >> 12) - 1; if (k == MAXT) return g_main_thread; if (k >= 0 && k < MAXT - 1) return TH[k].th; }
+    return t;
+}
+int __real_pthread_getattr_np(pthread_t, pthread_attr_t *);
+int __wrap_pthread_getattr_np(pthread_t t, pthread_attr_t *a) { return __real_pthread_getattr_np(real_thread_of(t), a); }
 char *__wrap_strtok(char *s, const char *d) { on_pseudo_write(0, PC); return __real_strtok(s, d); }
 char *__wrap_strerror(int e) { on_pseudo_write(1, PC); return __real_strerror(e); }
 int __wrap_rand(void) { on_pseudo_write(2, PC); return __real_rand(); }
